@@ -36,6 +36,9 @@ SCENARIOS = {
     'estab_pfs_same': dict(BASE, ChildDh='DhSame', Triggers=('acquire', 'soft')),
     # the periodic timers also come due while the IKE_SA is busy / rekeyed / being deleted
     'estab_idle': dict(BASE, IdleTimers=True, MaxDup=0, Triggers=('rekeyike', 'delike', 'dpd', 'soft')),
+    # three triggers of few kinds: what a refused exchange leaves behind shows in a LATER exchange of the same IKE_SA
+    'estab3_soft': dict(BASE, MaxTrig=3, MaxDup=0, KnownToBothOnly=True, Triggers=('soft', 'acquire', 'hard')),
+    'estab3_rekey': dict(BASE, MaxTrig=3, MaxDup=0, KnownToBothOnly=True, Triggers=('rekeyike', 'soft', 'delike')),
     'estab3':     dict(BASE, MaxTrig=3, MaxDup=1),
     'estab3_c09': dict(BASE, MaxTrig=3, MaxDup=1, KnownToBothOnly=True),
     'live':       dict(BASE, MaxTrig=1, MaxDup=0, MaxLoss=1, KnownToBothOnly=True, FreeRetx=True),
